@@ -111,10 +111,14 @@ fn gen_state(rng: &mut Rng, conds: &[LockCond], nspends: usize) -> (Chain, Vec<B
         ts = i128::from(u64::MAX) - rng.below(2) as i128;
     }
     let mut chain = Chain { height: clamp32(height), timestamp: clamp64(ts) };
-    // only states in which every spent coin was confirmed no later than now
-    for b in &births {
-        chain.height = chain.height.max(b.height);
-        chain.timestamp = chain.timestamp.max(b.timestamp);
+    // mostly states in which every spent coin was confirmed no later than now; the rest are states
+    // "before the coin exists", which the statement quantifies over as well (the classification of
+    // negative arguments as tautologies does not depend on the state)
+    if !rng.chance(1, 4) {
+        for b in &births {
+            chain.height = chain.height.max(b.height);
+            chain.timestamp = chain.timestamp.max(b.timestamp);
+        }
     }
     (chain, births)
 }
